@@ -298,8 +298,14 @@ func checkRandNames(w *World, r *Result) {
 			return true
 		}
 		call, ok := as.Rhs[0].(*ast.CallExpr)
+		constCode := ""
 		if !ok {
-			return true
+			// the template may be a (named) string constant instead of a function returning it
+			if cv := info.Types[as.Rhs[0]]; cv.Value != nil && cv.Value.Kind() == constant.String {
+				constCode = constant.StringVal(cv.Value)
+			} else {
+				return true
+			}
 		}
 		for _, ke := range cc.List {
 			tv := info.Types[ke]
@@ -313,7 +319,11 @@ func checkRandNames(w *World, r *Result) {
 			want := types.Typ[k].Name()
 			got := ""
 			dynamic := ""
-			if len(call.Args) == 1 {
+			if call == nil {
+				if m := regexp.MustCompile(`func rand(\w+)\(`).FindStringSubmatch(constCode); m != nil {
+					got = m[1]
+				}
+			} else if len(call.Args) == 1 {
 				if av := info.Types[call.Args[0]]; av.Value != nil {
 					got = constant.StringVal(av.Value)
 				} else if c2, ok := ast.Unparen(call.Args[0]).(*ast.CallExpr); ok {
